@@ -207,9 +207,12 @@ class ModelApiHarness(Harness):
       nd = 1
       if i == n - 1:
         nd = 3          # document 0, document 1, or no document (detached)
-      elif i == n - 2 and ex.tier == "thorough":
-        nd = 3
-      di = ex.choice("doc%d" % i, nd)
+      elif i == n - 2:
+        nd = 3 if ex.tier == "thorough" else -2      # quick: document 0 or detached
+      if nd == -2:
+        di = [0, 2][ex.choice("doc%d" % i, 2)]
+      else:
+        di = ex.choice("doc%d" % i, nd)
       d = [w.docs[0], w.docs[1], None][di]
       doc_of.append(di)
       cls = getattr(model, k)
